@@ -51,3 +51,47 @@ package keeper
 //@   loop L3 invariant forall c string :: has(Pledge, c) ==> Pledge[c].Creator == c
 //@   loop L3 invariant forall c string :: has(PledgeDebt, c) ==> PledgeDebt[c].Sp == c && PledgeDebt[c].Debt.Amount >= 0
 //@   loop L3 invariant forall i int :: 0 <= i && i <= MaxUint64 && has(Shard, i) ==> Shard[i].Id == i && Shard[i].Pledge.Amount >= 0
+
+// schedule the release of a shard at the end height of its current paid period
+//@ func (Keeper) SetExpiredShardBlock(ctx, shardId, expiredAt)
+//@   requires has(ExpiredShard, expiredAt) ==> ExpiredShard[expiredAt].Height == expiredAt
+//@   modifies ExpiredShard[expiredAt]
+//@   nopanic [C02.setexpired.nopanic]
+//@   ensures [C11.shardsched.add] has(ExpiredShard, expiredAt) && ExpiredShard[expiredAt].Height == expiredAt && contains(ExpiredShard[expiredAt].ShardList, shardId)
+//@   ensures [C11.shardsched.keep] forall x int :: old(has(ExpiredShard, expiredAt)) && contains(old(ExpiredShard[expiredAt].ShardList), x) ==> contains(ExpiredShard[expiredAt].ShardList, x)
+
+//@ func (Keeper) SetTimeoutOrderBlock(ctx, order, timeoutHeight)
+//@   requires has(TimeoutOrder, timeoutHeight) ==> TimeoutOrder[timeoutHeight].Height == timeoutHeight
+//@   modifies TimeoutOrder[timeoutHeight]
+//@   nopanic [C02.settimeout.nopanic]
+//@   ensures [C12.sched.add] has(TimeoutOrder, timeoutHeight) && TimeoutOrder[timeoutHeight].Height == timeoutHeight && contains(TimeoutOrder[timeoutHeight].OrderList, order.Id)
+//@   ensures [C12.sched.keep] forall x int :: old(has(TimeoutOrder, timeoutHeight)) && contains(old(TimeoutOrder[timeoutHeight].OrderList), x) ==> contains(TimeoutOrder[timeoutHeight].OrderList, x)
+
+// HandleExpiredShard: at the end height of a shard's paid period the shard is released (capacity, collateral, income stop), or,
+// if a renewal is queued, rotated into the next paid period and rescheduled.
+//@ func (Keeper) HandleExpiredShard(ctx, shardId)
+//@   requires forall c string :: has(Pledge, c) ==> Pledge[c].Creator == c
+//@   requires forall c string :: has(PledgeDebt, c) ==> PledgeDebt[c].Sp == c && PledgeDebt[c].Debt.Amount >= 0
+//@   requires forall i int :: 0 <= i && i <= MaxUint64 && has(Shard, i) ==> Shard[i].Id == i && Shard[i].Pledge.Amount >= 0
+//@   requires forall i int :: 0 <= i && i <= MaxUint64 && has(Order, i) ==> Order[i].Id == i
+//@   requires forall w string :: has(Worker, w) ==> Worker[w].Workername == w
+//@   requires forall h int :: 0 <= h && h <= MaxUint64 && has(ExpiredShard, h) ==> ExpiredShard[h].Height == h
+//@   modifies *
+//@   nopanic [C02.expire.nopanic] when has(Shard, shardId) && has(Order, Shard[shardId].OrderId) ==>
+//@       validAddr(Shard[shardId].Sp) && Order[Shard[shardId].OrderId].Amount.Amount >= 0 && validDenom(Order[Shard[shardId].OrderId].Amount.Denom)
+//@       && (has(PledgeDebt, Shard[shardId].Sp) ==> validDenom(PledgeDebt[Shard[shardId].Sp].Debt.Denom) && Shard[shardId].Pledge.Denom == PledgeDebt[Shard[shardId].Sp].Debt.Denom)
+//@       && (has(Pledge, Shard[shardId].Sp) ==> Pledge[Shard[shardId].Sp].TotalShardPledged.Denom == Shard[shardId].Pledge.Denom && Pledge[Shard[shardId].Sp].TotalShardPledged.Amount >= Shard[shardId].Pledge.Amount)
+//@       && (len(Shard[shardId].RenewInfos) > 0 ==> has(Order, Shard[shardId].RenewInfos[0].OrderId) &&
+//@             Order[Shard[shardId].RenewInfos[0].OrderId].Amount.Amount >= 0 && validDenom(Order[Shard[shardId].RenewInfos[0].OrderId].Amount.Denom))
+//@   ensures [C11.expire.release] old(has(Shard, shardId)) && old(has(Order, Shard[shardId].OrderId)) && len(old(Shard[shardId].RenewInfos)) == 0 ==> !has(Shard, shardId)
+//@   ensures [C11.expire.rotate] old(has(Shard, shardId)) && old(has(Order, Shard[shardId].OrderId)) && len(old(Shard[shardId].RenewInfos)) > 0 ==>
+//@       has(Shard, shardId) && Shard[shardId].CreatedAt == H && Shard[shardId].Duration == old(Shard[shardId].RenewInfos)[0].Duration
+//@       && Shard[shardId].OrderId == old(Shard[shardId].RenewInfos)[0].OrderId && len(Shard[shardId].RenewInfos) == len(old(Shard[shardId].RenewInfos)) - 1
+//@       && Shard[shardId].Sp == old(Shard[shardId].Sp) && Shard[shardId].Size_ == old(Shard[shardId].Size_) && Shard[shardId].Pledge == old(Shard[shardId].Pledge) && Shard[shardId].Status == old(Shard[shardId].Status)
+//@   ensures [C11.expire.resched] old(has(Shard, shardId)) && old(has(Order, Shard[shardId].OrderId)) && len(old(Shard[shardId].RenewInfos)) > 0 ==>
+//@       has(ExpiredShard, u64(H + old(Shard[shardId].RenewInfos)[0].Duration)) && contains(ExpiredShard[u64(H + old(Shard[shardId].RenewInfos)[0].Duration)].ShardList, shardId)
+//@   ensures [C11.expire.absent] !old(has(Shard, shardId)) ==> !has(Shard, shardId)
+//@   ensures [C13.expire.lastshard] old(has(Shard, shardId)) && old(has(Order, Shard[shardId].OrderId)) && len(old(Order[Shard[shardId].OrderId].Shards)) == 1
+//@       && old(Order[Shard[shardId].OrderId].Shards)[0] == shardId ==> !has(Order, old(Shard[shardId].OrderId))
+//@   loop L1 invariant -1 <= rangeindex && rangeindex < len(order.Shards)
+//@   loop L1 decreases [C02.expire.term] len(order.Shards) - rangeindex
